@@ -247,6 +247,13 @@ func parseRequestDataToRequest(lmd *Daemon, requestData map[string]interface{}) 
 	}
 	req.Backends = backends
 
+	// resolve the requested and the sort columns like NewRequest does for a livestatus request
+	req.SetRequestColumns()
+	err = req.SetSortColumns()
+	if err != nil {
+		return req, err
+	}
+
 	return req, nil
 }
 
